@@ -21,6 +21,8 @@ ASSUMPTIONS = ["user-defined pools are out of scope (C14)",
                "pthread_mutex/pthread_cond behave as specified by POSIX"]
 RULES_DOC = dict(common.SHARED_DOC)
 RULES_DOC["X4"] = common.X4_DOC
+RULES_DOC["X5"] = common.X5_DOC
+RULES_DOC["R7"] = "batch push (ABT_pool_push_threads[_ex]): handles are compacted into the unit buffer with one counter -- every store into the buffer is indexed by the counter that is incremented with it, and ABTI_pool_push_many receives that buffer and that counter (NULL handles are skipped without leaving holes or pushing unwritten slots)"
 RULES_DOC.update({
     "R1": "queue mutators run under data::mutex (or in a PRIV-only function); every exit has the lock released",
     "R2": "thread_queue.h: is_empty / is_in_pool release-stores are coherent with num_threads on every path",
@@ -609,7 +611,50 @@ def rule_R6(P, rep):
     rep.min_instances("R6", 6)
 
 
+def rule_R7(P, rep):
+    F = P.fn("pool_push_threads_ex", "src/pool/pool.c")
+    # stores into a buffer of units: `buf[idx] = unit`
+    st = []
+    for _b, i, lh, rh in F.stores():
+        ln = F.nodes[F.strip(lh)]
+        if rh is None or ln.get("k") != "idx":
+            continue
+        if canon.expr(F, rh).endswith("::unit"):
+            st.append((i, ln))
+    rep.need(len(st) >= 1, "pool_push_threads_ex: no store of a unit into a buffer")
+    pm = [i for _b, i in F.calls("ABTI_pool_push_many")]
+    rep.need(len(pm) == 1, "pool_push_threads_ex calls ABTI_pool_push_many %d times" % len(pm))
+    call = F.nodes[pm[0]]
+    cnt = F.nodes[F.strip(call["a"][2])]
+    cntname = cnt.get("n") if cnt.get("k") == "ref" else None
+    bufarg = F.base_var(call["a"][1])
+    for i, ln in st:
+        why = []
+        ix = F.nodes[F.strip(ln["i"])]
+        ivar = None
+        if ix.get("k") == "un" and ix["op"] == "post++":
+            ivar = F.nodes[F.strip(ix["e"])].get("n")
+        elif ix.get("k") == "ref":
+            ivar = ix["n"]
+            # `buf[c] = u; c++` : the counter must be advanced right after the store, in the same block
+            b = F.block_of(i)
+            ev = F.block_events(b)
+            nxt = ev[ev.index(i) + 1:ev.index(i) + 2] if i in ev else []
+            adv = [j for j in nxt if F.nodes[j].get("k") in ("un", "bin") and F.base_var(F.nodes[j].get("e", F.nodes[j].get("lh"))) == ivar]
+            if not adv:
+                why.append("the index %s is not advanced together with the store" % ivar)
+        else:
+            why.append("index %s is not a counter" % F.render(ln["i"]))
+        if ivar != cntname:
+            why.append("the buffer is filled with index `%s` but `%s` entries are pushed" % (ivar, F.render(call["a"][2])))
+        if F.base_var(ln["b"]) != bufarg:
+            why.append("fills %s but pushes %s" % (F.base_var(ln["b"]), bufarg))
+        rep.ob("R7", "pool_push_threads_ex compacts the handles with the counter it hands to push_many", not why, "; ".join(why),
+               loc=F.loc(i), site="push_threads/compaction")
+
+
 def run(P, rep, tier):
+    common.rule_widths(P, rep, [('thread_queue_t', 'num_threads')])
     common.rule_X4(P, rep)
     common.run_shared(P, rep)
     rule_R1_R5(P, rep)
@@ -617,3 +662,4 @@ def run(P, rep, tier):
     rule_R3(P, rep)
     rule_R4(P, rep)
     rule_R6(P, rep)
+    rule_R7(P, rep)
